@@ -7,7 +7,7 @@ CONSTANTS
   Aligns <- A_1_8_16
   MaxOps = 2
   MaxFrames = 2
-  Threads <- NoThreads
+  Threads <- T2
   CodeSites <- Contract
 INVARIANT TypeOK
 INVARIANT InArena
